@@ -29,6 +29,9 @@ broadcast use tok_axioms::axiom_tok_len_pos;
 impl PrefixedStringBuf {
     pub open spec fn fresh(&self) -> bool { self.all().len() == self.prefix_n() }
 }
+use std::sync::Arc;
+// a state field that is written after construction but whose fresh value this generator does not know: never provable
+pub uninterp spec fn verif_no_reset_known<T>(t: T) -> bool;
 // ---- assumed: hashbrown::HashMap (only len / new / clear / clone) -----------------------------
 pub mod hashbrown {
     use vstd::prelude::*;
@@ -77,6 +80,19 @@ def _fresh_predicate(repo, variant, bu):
     st = StructItem(repo, dict(file=EMF, name="State"))
     must, deferred, config = [], [], []
     undefer = (variant.get("canary") or {}).get("undefer")
+    # fields that are WRITTEN somewhere in the file after construction (assignment or a mutating method call through
+    # `state.<field>`) are mutable formatter state whatever their type: they need a reset at the start of a call too
+    from vf.rusttok import Source
+    src = Source(repo + "/" + EMF)
+    toks = [t.text for t in src.toks]
+    MUT = ("insert", "push", "push_str", "extend", "replace", "take", "get_or_insert_with", "get_or_insert", "clear", "entry",
+           "entry_ref", "retain", "drain", "truncate", "append", "remove", "pop", "swap", "set", "store", "fetch_add")
+    written = set()
+    for i in range(len(toks) - 4):
+        if toks[i] == "state" and toks[i + 1] == "." and toks[i + 3] in ("=", "+=", "-=", "|=", "&=", "*="):
+            written.add(toks[i + 2])
+        if toks[i] == "state" and toks[i + 1] == "." and toks[i + 3] == "." and toks[i + 4] in MUT and toks[i + 5] == "(":
+            written.add(toks[i + 2])
     for name, ty in st.fields():
         if name == undefer:
             must.append((name, ty, "s.%s.fresh()" % name))
@@ -84,6 +100,19 @@ def _fresh_predicate(repo, variant, bu):
             (deferred if name in DEFERRED else must).append((name, ty, "s.%s.fresh()" % name))
         elif "HashMap" in ty or "HashSet" in ty or "BTreeMap" in ty:
             (deferred if name in DEFERRED else must).append((name, ty, "s.%s.spec_len() == 0" % name))
+        elif name in written:
+            t0 = ty.replace(" ", "")
+            if t0.startswith("Option<"):
+                cond = "s.%s is None" % name
+            elif t0.startswith("Vec<") or t0 == "String":
+                cond = "s.%s@.len() == 0" % name
+            elif t0 == "bool":
+                cond = "!s.%s" % name
+            elif t0 in ("u8", "u16", "u32", "u64", "usize", "i32", "i64"):
+                cond = "s.%s == 0" % name
+            else:
+                cond = "verif_no_reset_known(s.%s)" % name
+            must.append((name, ty, cond + "   /* written after construction: OBL mutable_state_field_is_reset */"))
         else:
             config.append((name, ty))
     missing = [d for d in DEFERRED if d not in [n for n, _, _ in deferred] and d != undefer]
